@@ -135,24 +135,33 @@ func objKinds() []objKind {
 			}},
 			{"copy-of", func(o any) { new(parameters.Parameters).CopyFrom(o.(*parameters.Parameters)) }},
 		}},
+		// a function-scoped Config (what two pipeline stages or bg jobs of one function share) with a local
+		// override of the non-global option already in place, plus the session-level table behind it
 		{"config", func() any {
+			config.InitConf.Define("verif", "loc", config.Properties{Description: "verif: non-global option", Default: "d", DataType: types.String})
+			config.InitConf.Define("verif", "glo", config.Properties{Description: "verif: global option", Default: "d", DataType: types.String, Global: true})
 			c := config.InitConf.Copy()
+			c.Set("verif", "loc", "x", objFileRef)
 			return c
 		}, []objOp{
-			{"Get", func(o any) { o.(*config.Config).Get("shell", "max-suggestions", types.Integer) }},
-			{"Set", func(o any) { o.(*config.Config).Set("shell", "max-suggestions", 7, objFileRef) }},
-			{"Set(global opt)", func(o any) { o.(*config.Config).Set("shell", "prompt", "{ out x }", objFileRef) }},
-			{"Default", func(o any) { o.(*config.Config).Default("shell", "max-suggestions", objFileRef) }},
+			{"Get loc", func(o any) { o.(*config.Config).Get("verif", "loc", types.String) }},
+			{"GetFileRef loc", func(o any) { o.(*config.Config).GetFileRef("verif", "loc", types.String) }},
+			{"Set loc", func(o any) { o.(*config.Config).Set("verif", "loc", "y", objFileRef) }},
+			{"Default loc", func(o any) { o.(*config.Config).Default("verif", "loc", objFileRef) }},
+			{"Get glo", func(o any) { o.(*config.Config).Get("verif", "glo", types.String) }},
+			{"Set glo", func(o any) { o.(*config.Config).Set("verif", "glo", "y", objFileRef) }},
+			{"Get other", func(o any) { o.(*config.Config).Get("shell", "max-suggestions", types.Integer) }},
+			{"Set other", func(o any) { o.(*config.Config).Set("shell", "max-suggestions", 7, objFileRef) }},
 			{"Copy", func(o any) { o.(*config.Config).Copy() }},
-			{"DataType", func(o any) { o.(*config.Config).DataType("shell", "max-suggestions") }},
-			{"ExistsAndGlobal", func(o any) { o.(*config.Config).ExistsAndGlobal("shell", "max-suggestions") }},
+			{"DataType", func(o any) { o.(*config.Config).DataType("verif", "loc") }},
+			{"ExistsAndGlobal", func(o any) { o.(*config.Config).ExistsAndGlobal("verif", "loc") }},
 			{"DumpRuntime", func(o any) { o.(*config.Config).DumpRuntime() }},
 			{"DumpConfig", func(o any) { o.(*config.Config).DumpConfig() }},
 			{"Define", func(o any) {
 				o.(*config.Config).Define("verif", "opt", config.Properties{Description: "d", Default: 1, DataType: types.Integer})
 			}},
-			{"root Get", func(o any) { config.InitConf.Get("shell", "max-suggestions", types.Integer) }},
-			{"root Set", func(o any) { config.InitConf.Set("shell", "max-suggestions", 9, objFileRef) }},
+			{"root Get loc", func(o any) { config.InitConf.Get("verif", "loc", types.String) }},
+			{"root Set loc", func(o any) { config.InitConf.Set("verif", "loc", "z", objFileRef) }},
 		}},
 		{"aliases", func() any {
 			lang.GlobalAliases.Add("va", []string{"out", "a"}, objFileRef)
